@@ -459,6 +459,17 @@ fn serde_only_oracle(s: &SerdeOnly, obs: &mut Obs) -> Check {
             return Err(Failure::new("serde: Rust data -> Liquid value differs from the same data via JSON", format!("{s:?}\n direct={}\n json  ={}", a.dump(), b.dump())));
         }
     }
+    // to_object agrees with to_value whenever the datum is an object (enum variants with payloads)
+    for shape in [&s.shape] {
+        let as_value = liquid::model::to_value(shape).map_err(|e| Failure::new("serde: to_value of an enum fails", format!("{shape:?} {e}")))?;
+        match (&as_value, guard(|| liquid::to_object(shape))) {
+            (_, Err(p)) => return Err(Failure::new(format!("serde: to_object panics: {}", p.site()), p.what)),
+            (Value::Object(o), Ok(Ok(o2))) if from_view(o) == from_view(&o2) => {}
+            (Value::Object(o), Ok(other)) => return Err(Failure::new("serde: to_object disagrees with to_value on data that is an object", format!("{shape:?} to_value={} to_object={:?}", from_view(o).dump(), other.map(|o| from_view(&o).dump())))),
+            (_, Ok(Ok(o2))) => return Err(Failure::new("serde: to_object accepts data that to_value does not see as an object", format!("{shape:?} -> {}", from_view(&o2).dump()))),
+            (_, Ok(Err(_))) => {}
+        }
+    }
     let mut expect = s.clone();
     if expect.nested_opt == Some(None) {
         expect.nested_opt = None; // Some(None) and None are both nil
@@ -509,7 +520,7 @@ fn bigint_oracle(c: &BigInt, obs: &mut Obs) -> Check {
         2 => guard(|| serde_yaml::from_str::<Value>(&c.text).map_err(|e| e.to_string())),
         3 => guard(|| liquid::model::to_value(&n).map_err(|e| e.to_string())),
         4 => guard(|| serde_json::from_str::<liquid::Object>(&format!("{{\"n\": {}}}", c.text)).map(|o| o.get("n").cloned().unwrap_or(Value::Nil)).map_err(|e| e.to_string())),
-        _ => match u64::try_from(n) {
+        5 => match u64::try_from(n) {
             Ok(u) => guard(|| {
                 #[derive(Serialize)]
                 struct S {
@@ -519,6 +530,23 @@ fn bigint_oracle(c: &BigInt, obs: &mut Obs) -> Check {
             }),
             Err(_) => return Ok(()),
         },
+        _ => {
+            // integer map keys become the decimal string of the key
+            let keys = |o: liquid::Object| o.keys().map(|k| k.to_string()).collect::<Vec<_>>();
+            let got: Result<Result<Vec<String>, String>, crate::engine::Panicked> = if let Ok(u) = u64::try_from(n) {
+                guard(|| liquid::to_object(&BTreeMap::from([(u, 1i64)])).map(keys).map_err(|e| e.to_string()))
+            } else if let Ok(i) = i64::try_from(n) {
+                guard(|| liquid::to_object(&BTreeMap::from([(i, 1i64)])).map(keys).map_err(|e| e.to_string()))
+            } else {
+                return Ok(());
+            };
+            return match got {
+                Err(p) => Err(Failure::new(format!("integers: conversion panics: {}", p.site()), format!("map key {} {}", c.text, p.what))),
+                Ok(Err(_)) => Ok(()),
+                Ok(Ok(k)) if k == vec![c.text.clone()] => Ok(()),
+                Ok(Ok(k)) => Err(Failure::new("integers: an integer map key was turned into a different number", format!("key={} became {k:?}", c.text))),
+            };
+        }
     };
     match r {
         Err(p) => Err(Failure::new(format!("integers: conversion panics: {}", p.site()), format!("{} {}", c.text, p.what))),
@@ -549,7 +577,7 @@ fn bigints() -> Vec<BigInt> {
     let marks: [i128; 8] = [i64::MAX as i128, i64::MIN as i128, u64::MAX as i128, 1 << 63, 1 << 62, 1 << 53, 0, 1 << 64];
     for m in marks {
         for d in -3i128..=3 {
-            for route in 0..6u8 {
+            for route in 0..7u8 {
                 v.push(BigInt { text: (m + d).to_string(), route });
             }
         }
@@ -558,11 +586,11 @@ fn bigints() -> Vec<BigInt> {
 }
 
 pub fn run(ctx: &Ctx) {
-    ctx.set_rule("E1: (a) recursive values (depth <= 4; every scalar kind incl. dates and date-times with sub-seconds and offsets; arrays; objects of 0..6 keys) observed through &v, ValueCow::Owned/Borrowed, to_value(), as_view(), Some(v), serde to_value / from_value::<Value> / from_value::<serde_json::Value> (kind), JSON and YAML text round trips: identical type_name, truthy/default/empty/blank, is_*, scalar conversions, structure, and (single-key containers) to_kstr/render/source; (b) a family of structs with derive(Serialize, Deserialize, ObjectView, ValueView) (every field type, Option, Vec, nested struct, Vec of structs, BTreeMap/HashMap, zero-field struct, fields named size/first) rendered through ~150 probes per instance (output, if, size, == empty/blank/nil, default, for, contains, map/where/sort/join) once exposed through the derive and once through to_object; plus serde-only enums/tuples/newtypes round-tripped; (c) E2: integers within +-3 of i64::MIN/MAX, u64::MAX, 2^63, 2^64, 2^62, 2^53, 0 through six routes (u64, i128, JSON text, YAML text, JSON object, struct field). Non-trivial = datum holds a container, a date, an Option or a boundary integer; distinct by datum.");
+    ctx.set_rule("E1: (a) recursive values (depth <= 4; every scalar kind incl. dates and date-times with sub-seconds and offsets; arrays; objects of 0..6 keys) observed through &v, ValueCow::Owned/Borrowed, to_value(), as_view(), Some(v), serde to_value / from_value::<Value> / from_value::<serde_json::Value> (kind), JSON and YAML text round trips: identical type_name, truthy/default/empty/blank, is_*, scalar conversions, structure, and (single-key containers) to_kstr/render/source; (b) a family of structs with derive(Serialize, Deserialize, ObjectView, ValueView) (every field type, Option, Vec, nested struct, Vec of structs, BTreeMap/HashMap, zero-field struct, fields named size/first) rendered through ~150 probes per instance (output, if, size, == empty/blank/nil, default, for, contains, map/where/sort/join) once exposed through the derive and once through to_object; plus serde-only enums/tuples/newtypes round-tripped; (c) E2: integers within +-3 of i64::MIN/MAX, u64::MAX, 2^63, 2^64, 2^62, 2^53, 0 through seven routes (u64, i128, JSON text, YAML text, JSON object, struct field, integer map key). Non-trivial = datum holds a container, a date, an Option or a boundary integer; distinct by datum.");
     ctx.assume("string leaves never spell one of the crate's date formats (serde maps those to dates by design); State markers and NaN are not data");
     ctx.cases("integers", bigints(), bigint_oracle);
     ctx.random("integers_random", ctx.pick(20_000, 200_000), || {
-        (prop_oneof![any::<i64>().prop_map(|x| x as i128), any::<u64>().prop_map(|x| x as i128), any::<i64>().prop_map(|x| x as i128 * 3)], 0u8..6).prop_map(|(n, route)| BigInt { text: n.to_string(), route })
+        (prop_oneof![any::<i64>().prop_map(|x| x as i128), any::<u64>().prop_map(|x| x as i128), any::<i64>().prop_map(|x| x as i128 * 3)], 0u8..7).prop_map(|(n, route)| BigInt { text: n.to_string(), route })
     }, bigint_oracle);
     ctx.random("value_views", ctx.pick(150_000, 1_500_000), datum, views_oracle);
     ctx.random("derive_vs_serde", ctx.pick(25_000, 250_000), nested, derive_oracle);
